@@ -1375,7 +1375,8 @@ func (c *immuClient) VerifiedSet(ctx context.Context, key []byte, value []byte) 
 		return nil, store.ErrCorruptedData
 	}
 
-	if tx.Header().Eh != schema.DigestFromProto(verifiableTx.DualProof.TargetTxHeader.EH) {
+	if tx.Header().Eh != schema.DigestFromProto(verifiableTx.DualProof.TargetTxHeader.EH) ||
+		tx.Header().Eh != schema.DigestFromProto(verifiableTx.Tx.Header.EH) {
 		return nil, store.ErrCorruptedData
 	}
 
@@ -1771,7 +1772,8 @@ func (c *immuClient) VerifiedSetReferenceAt(ctx context.Context, key []byte, ref
 		return nil, store.ErrCorruptedData
 	}
 
-	if tx.Header().Eh != schema.DigestFromProto(verifiableTx.DualProof.TargetTxHeader.EH) {
+	if tx.Header().Eh != schema.DigestFromProto(verifiableTx.DualProof.TargetTxHeader.EH) ||
+		tx.Header().Eh != schema.DigestFromProto(verifiableTx.Tx.Header.EH) {
 		return nil, store.ErrCorruptedData
 	}
 
@@ -1941,7 +1943,8 @@ func (c *immuClient) VerifiedZAddAt(ctx context.Context, set []byte, score float
 		return nil, store.ErrCorruptedData
 	}
 
-	if tx.Header().Eh != schema.DigestFromProto(vtx.DualProof.TargetTxHeader.EH) {
+	if tx.Header().Eh != schema.DigestFromProto(vtx.DualProof.TargetTxHeader.EH) ||
+		tx.Header().Eh != schema.DigestFromProto(vtx.Tx.Header.EH) {
 		return nil, store.ErrCorruptedData
 	}
 
